@@ -12,7 +12,7 @@ PROPERTY = "C33"
 LEVEL = "exploration"
 TOL = 1e-9
 META = {
-    "text": "For every capability area class of PQVAreas.py (STATCOM, polygon, VDE 4105/4110/4120/4130 variants, stand-alone PQ and QV parts; 26 area objects incl. none) x every q-model class (10 incl. none) x saturate_sn_mva in {NaN, 0.8 sn, sn} x q_prio x damping in {1, 2}, real DERControllers are stepped on sgens covering sn in {1,2} x 7 active powers (incl. the 0.05 / 0.2 p.u. break points) x 7 start reactive powers x 7 voltages (incl. the exact 96/110 and 127/110 p.u. break points; thorough: 17), as multi-element controllers (quick; damped runs and QModelCosphiSn on a stated sub-grid) and one controller per element (thorough), and through run_control on a 2-bus net (thorough). After every control_step: sqrt(p^2+q^2) <= saturate_sn_mva when saturation is active; when only an area applies, q/sn lies in the documented q range of that area at (p/sn, vm), recomputed independently (own polygon slicing / piecewise-linear limits, no shapely, no q_flexibility call).",
+    "text": "For every capability area class of PQVAreas.py (STATCOM, polygon, VDE 4105/4110/4120/4130 variants, stand-alone PQ and QV parts; 26 area objects incl. none) x every q-model class (10 incl. none) x saturate_sn_mva in {NaN, 0.8 sn, sn} x q_prio x damping in {1, 2}, real DERControllers are stepped on sgens covering sn in {1,2} x 7 active powers (incl. the 0.05 / 0.2 p.u. break points) x 7 start reactive powers x 7 voltages (incl. the exact 96/110 and 127/110 p.u. break points; thorough multi-element mode: 17), as multi-element controllers (quick; damped runs and QModelCosphiSn on a stated sub-grid) and one controller per element (thorough), and through run_control on a 2-bus net (thorough). After every control_step: sqrt(p^2+q^2) <= saturate_sn_mva when saturation is active; when only an area applies, q/sn lies in the documented q range of that area at (p/sn, vm), recomputed independently (own polygon slicing / piecewise-linear limits, no shapely, no q_flexibility call).",
     "note": "Continuous domain: decided on the stated finite P/Q/V grids only. Narrow seam: res_bus.vm_pu is written directly and is_converged/control_step are called in the order run_control uses; the thorough tier also goes through runpp(run_control=True). With damping > 1 and a start outside the capability only the converged state is judged (a damped step is a convex combination of an outside and an inside point), with the controller's own convergence tolerance. Points where the documented area is empty (p or vm outside the polygon, PQ and QV parts disjoint) and steps that raise (documented merge-overlap ValueError, shapely NotImplementedError at p = 0.05 of PQArea4110, scalar q of QModelCosphiSn) are counted, not judged. Area classes whose constructor raises (PQVArea4130V2: AttributeError) are counted. The reference shapes are transcribed from the vertex lists quoted in the class definitions.",
     "technique": "bounded exhaustive input enumeration (full product of finite grids) on the real controller with an independently recomputed capability-area reference",
     "design_ref": "DESIGN.md §3 E1, §4 C33",
@@ -314,11 +314,11 @@ def explore(tier, seed):
         rep.extra["case_stride"] = stride
     if tier == "thorough":
         for c in cases:
-            if c["mode"] != "run_control":
+            if c["mode"] == "vector":
                 c["vm_extra"] = True
     _net_for(kd.VM)
     rep.rule = ("E1 full product: area object (%d) x q-model (%d) x (saturate_sn_mva, q_prio) in %s x damping {1,2} x element grid sn %s x p/sn %s x "
-                "q/sn %s (with a q-model: %s) x vm %s (thorough: + %d more break points); an element is distinct+non-trivial when its controller "
+                "q/sn %s (with a q-model: %s) x vm %s (thorough, multi-element mode: + %d more break points); an element is distinct+non-trivial when its controller "
                 "stepped without raising, keyed by (area, q-model, saturation, q_prio, damping, mode, element, moved flag)" % (
                     len(kd.area_keys()), len(kd.qmodel_keys()), _sat_prio(), kd.SN, kd.P_PU, kd.Q_PU, kd.Q_PU_SHORT, [round(v, 4) for v in kd.VM], len(kd.VM_EXTRA)))
     rep.extra["controller_configurations"] = len(cases)
